@@ -44,16 +44,24 @@ fn cycle_refs<T>(this: Link<T>) -> HashMap<Link<T>, usize> {
     let mut cycle_owned_refs = HashMap::default();
     let mut discovered = vec![this];
     let mut visited = HashSet::default();
+    #[cfg(feature = "verif")]
+    crate::verif::bump(&crate::verif::TRACE_INVOCATIONS);
 
     // crawl the graph
     while let Some(node) = discovered.pop() {
+        #[cfg(feature = "verif")]
+        crate::verif::bump(&crate::verif::TRACE_POPS);
         if visited.contains(&node) {
             continue;
         }
         visited.insert(node);
+        #[cfg(feature = "verif")]
+        crate::verif::bump(&crate::verif::TRACE_EXPANSIONS);
 
         let links = unsafe { node.as_ref().links().borrow() };
         for (&link, &strong) in links.iter() {
+            #[cfg(feature = "verif")]
+            crate::verif::bump(&crate::verif::TRACE_ENTRIES_SCANNED);
             if let Kind::Forward | Kind::Loopback = link.kind() {
                 cycle_owned_refs
                     .entry(link)
